@@ -54,6 +54,9 @@ var c08fixed = []struct {
 	// execution order of the imports differs from their source order: the first import in the source sits in a function
 	// called later / in a branch never taken, the import that runs first comes later in the source and writes
 	{"global (ID, TICK)\nTICK()\nlate := func() {\n  return import(\"plugins\")\n}\nvar never\nif ID < 0 {\n  never = import(\"strings\")\n}\np := import(\"plugins\")\nkey := \"k\" + ID\np.registry[key] = true\np.nested.inner[key] = ID\np.nested.arr[0][key] = ID\np.state.n += ID + 1\np.log[0] += 10\np.buf[0] = 7\np.list = append(p.list, ID)\ns := import(\"strings\")\ns.Marker = ID\ns.nested = {id: ID}\nTICK()\nq := late()\nreturn [len(q.registry), len(q.nested.inner), len(q.nested.arr[0]), q.state.n == ID + 1, q.log[0], q.buf[0], len(q.list), q.registry[key], import(\"strings\").Marker == ID, import(\"strings\").nested.id == ID, never]", nil, []string{"plugins", "strings"}},
+	// callbacks on pooled child VMs that fail (caught by the script) followed by more callbacks, nested ones included:
+	// a child VM handed back to the process-wide pool must never be handed out to two VMs at once
+	{"global (ID, TICK, CALL)\nTICK()\ns := import(\"strings\")\nout := []\nfor i := 0; i < 6; i++ {\n  try {\n    s.Map(func(c) {\n      if i % 2 == 0 {\n        throw \"cb\"\n      }\n      return c + 1\n    }, \"ab\")\n  } catch e {\n    out = append(out, \"caught\")\n  }\n  out = append(out, s.Map(func(c) { TICK(); return c + ID % 3 }, \"abc\"))\n  try {\n    CALL(func() { throw error(\"x\" + ID) })\n  } catch e {\n    out = append(out, e.Message)\n  }\n  out = append(out, CALL(func(a) { TICK(); return CALL(func(b) { TICK(); return b + ID }, a) }, i))\n  out = append(out, s.TrimFunc(\"xxhixx\", func(c) { TICK(); return c == 'x' }))\n}\nreturn out", nil, []string{"strings"}},
 	// caught runtime errors (which wrap process-wide error values) are re-labelled with New / compared / formatted
 	{"global (ID, TICK)\nTICK()\nout := []\nfor i := 0; i < 4; i++ {\n  try {\n    x := 1 / (i - i)\n  } catch e {\n    w := e.New(\"ctx \" + ID)\n    out = append(out, [e.Message, w.Message, string(e), string(w), isError(w, e), isError(e, ZeroDivisionError)])\n  }\n  try {\n    throw TypeError\n  } catch e {\n    out = append(out, string(e.New(\"t\" + ID)), e.Message)\n  }\n  try {\n    y := [1][5]\n  } catch e {\n    out = append(out, e.New(\"idx\" + ID).Message, e.Message, e.Name)\n  }\n  try {\n    throw error(\"own \" + ID)\n  } catch e {\n    out = append(out, e.New(\"again\").Message, e.Message)\n  }\n  TICK()\n}\nreturn out", nil, nil},
 	{"global (ID, TICK, PANIC)\nTICK()\ntry {\n  PANIC()\n} catch e {\n  TICK()\n  return sprintf(\"%v\", e.Message)\n}", nil, nil},
